@@ -23,7 +23,7 @@ import (
 // the token alphabet of the exhaustive enumeration
 var alphabet = []string{
 	"/", "'", "\"", "|", ".", "@", "(", ")", ",", ":", "=", "!", "<", ">", "+", "-", "*", "%", "\\", "\n",
-	" ", "1", "a", "é", "€", "\xff", "lambda", "var", "TRUE", "AND", "1s", "//", "'''", "stream", "from", "x", "0.5", "=~", "[", "]",
+	" ", "1", "a", "é", "€", "\xff", "\x80", "\xbf", "\xc3", "\xe2\x82", "lambda", "var", "TRUE", "AND", "1s", "//", "'''", "stream", "from", "x", "0.5", "=~", "[", "]",
 }
 
 // real scripts into which short strings are spliced
